@@ -88,8 +88,9 @@ impl Hll8 {
         // Sum over the reciprocals (SUM of 2^-m)
         let mut sum: f64 = 0.0;
         for i in 0..=255 {
-            let power: usize = 1 << self.0[i];
-            sum += 1.0 / (power as f64);
+            // registers imported from hex can be as large as 255, so 2^-m is computed
+            // in floating point rather than by shifting an integer
+            sum += 2f64.powi(-(self.0[i] as i32));
         }
 
         let estimate = estimate_hyperloglog(sum, zero_count);
